@@ -814,6 +814,27 @@ func (*Stream).parseFunctionArgs
   loop 1 step a-word-that-is-a-column-of-this-row-is-that-columns-value-on-this-row: !(strings.HasPrefix(strings.TrimSpace($s[$i - 1]), "'") && strings.HasSuffix(strings.TrimSpace($s[$i - 1]), "'")) && !(strings.HasPrefix(strings.TrimSpace($s[$i - 1]), "\"") && strings.HasSuffix(strings.TrimSpace($s[$i - 1]), "\"")) && !strings.Contains(strings.TrimSpace($s[$i - 1]), "(") && $known ==> args[$i - 1] == $fld
   loop 1 step the-arguments-already-worked-out-stay: forall(j, 0, $i - 1, args[j] == prev(args)[j])
 
+// the aggregator of a query is built on the query's own GROUP BY fields and aggregate items; every compound item is
+// added from its own text and inputs, none skipped; every aggregate whose argument is an expression gets its evaluator
+func (*DataProcessor).initializeAggregator
+  props C03 C01 C04 C07 C09 C20
+  modifies *
+  observe fields := convertToAggregationFields
+  count compound := AddPostAggregationExpression
+  count plain := NewGroupAggregator
+  count enhanced := NewEnhancedGroupAggregator
+  count calculators := registerExpressionCalculator
+  before convertToAggregationFields the-aggregate-items-are-the-querys-own: $arg1 == dp.stream.config.FieldAlias
+  before NewGroupAggregator the-aggregator-groups-by-the-querys-group-by-fields-and-aggregates-its-items: $arg0 == dp.stream.config.GroupFields && $arg1 == $fields
+  before NewEnhancedGroupAggregator the-aggregator-groups-by-the-querys-group-by-fields-and-aggregates-its-items: $arg0 == dp.stream.config.GroupFields && $arg1 == $fields
+  before AddPostAggregationExpression each-compound-item-is-added-under-its-own-output-name-from-its-own-text: $arg1 == postExpr.OutputField && $arg2 == postExpr.OriginalExpr
+  before registerExpressionCalculator each-expression-argument-gets-the-evaluator-of-its-own-expression: $arg1 == field && $arg2 == fieldExpr
+  atreturn exactly-one-aggregator-is-built-the-enhanced-one-wraps-a-plain-one: $plain == 1 && $enhanced <= 1
+  loop 1 invariant $enhanced == 1 && $plain == 1
+  loop 1 step every-compound-item-is-added-once: $compound == prev($compound) + 1
+  loop 2 invariant $plain == 1 && $enhanced <= 1
+  loop 2 step every-expression-argument-gets-one-evaluator: $calculators == prev($calculators) + 1
+
 // the fallback of a SELECT expression (no compiled info): the column is always written, and only it; a call goes to the
 // bridge with the IS NULL / LIKE rewriting of the expression's own text and this row; a dotted non-call expression
 // goes to the hand-written engine on this row; anything else tries the bridge first and the engine only when the
